@@ -64,6 +64,14 @@ overflow-checks = false
 """
 
 
+def _mtime_for(src_path):
+    """mtime given to a generated file: that of the newest of its inputs (the
+    source file, this script = the rewrite rules, the emulated intrinsics), so
+    that cargo rebuilds the copy exactly when one of them changed."""
+    rules = max(os.stat(os.path.abspath(__file__)).st_mtime, os.stat(os.path.join(HARNESS, "emul", "verif_emul.rs")).st_mtime)
+    return max(os.stat(src_path).st_mtime, rules) if src_path else rules
+
+
 class MachineryError(Exception):
     pass
 
@@ -120,14 +128,14 @@ def prepare(variant):
             open(dst, "w").write(text)
         # keep the source file's mtime: cargo then rebuilds the copy exactly
         # when the file under /repo/src changed
-        st = os.stat(p)
-        os.utime(dst, (st.st_atime, st.st_mtime))
+        mt = _mtime_for(p)
+        os.utime(dst, (mt, mt))
     emul = open(os.path.join(HARNESS, "emul", "verif_emul.rs")).read()
     dst = os.path.join(src, "verif_emul.rs")
     if not os.path.exists(dst) or open(dst).read() != emul:
         open(dst, "w").write(emul)
-    st = os.stat(os.path.join(HARNESS, "emul", "verif_emul.rs"))
-    os.utime(dst, (st.st_atime, st.st_mtime))
+    mt = _mtime_for(None)
+    os.utime(dst, (mt, mt))
     for key in ("target_arch", "target_feature", "target_feature_attr", "core_arch"):
         if counts.get(key, 0) == 0:
             raise MachineryError("arch copy: rewrite rule %s matched nothing" % key)
@@ -150,7 +158,8 @@ def prepare(variant):
         os.makedirs(os.path.dirname(p), exist_ok=True)
         if not os.path.exists(p) or open(p).read() != content:
             open(p, "w").write(content)
-        os.utime(p, (st.st_atime, st.st_mtime))
+        mt = _mtime_for(None)
+        os.utime(p, (mt, mt))
     lockfile = os.path.join(root, "Cargo.lock")
     if not os.path.exists(lockfile):
         shutil.copy(os.path.join(HARNESS, "Cargo.lock"), lockfile)
@@ -169,7 +178,7 @@ LOOM_RULES = [
     (r'\bstd::thread::yield_now\b', 'loom::thread::yield_now'),
     (r'\bstd::sync::(Mutex|RwLock|Condvar|Arc)\b', r'loom::sync::\1'),
 ]
-LOOM_STATIC = re.compile(r'^(\s*)(pub(?:\([a-z]+\))? )?static (\w+): (Atomic\w+(?:<[^>]*>)?) = ([^;]*);\s*$')
+LOOM_STATIC = re.compile(r'^(\s*)(pub(?:\([a-z]+\))? )?static (\w+): ([^=]+?) = ([^;]*);\s*$')
 
 
 def prepare_loom():
@@ -200,14 +209,19 @@ def prepare_loom():
     for rel, p in want.items():
         out = []
         prev = ""
+        in_tls = False
         for line in open(p).read().split("\n"):
             new = line
             hook = "VERIF_DETECT_RUNS" in line or ("VERIF_DETECT_RUNS" in prev and prev.rstrip().endswith("="))
             prev = line
+            if "thread_local!" in line:
+                in_tls = True
+            elif in_tls and line.startswith("}"):
+                in_tls = False
             if not hook and "loom::" not in line and not line.lstrip().startswith("//"):
                 for pat, rep in LOOM_RULES:
                     new = re.sub(pat, rep, new)
-                m = LOOM_STATIC.match(new)
+                m = LOOM_STATIC.match(new) if rel != "verif.rs" and not in_tls else None
                 if m:
                     new = "%sloom::lazy_static! { %sstatic ref %s: %s = %s; }" % (m.group(1), m.group(2) or "", m.group(3), m.group(4), m.group(5))
                     counts["statics"] += 1
@@ -215,24 +229,29 @@ def prepare_loom():
                 counts["rewritten_lines"] += 1
             out.append(new)
         text = "\n".join(out)
+        if "loom::sync::" in text and rel != "arch/x86_64/memchr.rs":
+            # loom's constructors are not `const fn`: constructors of types
+            # that now contain loom primitives cannot be either
+            text, n = re.subn(r"\bconst fn\b", "fn", text)
+            counts["const_fn_stripped"] = counts.get("const_fn_stripped", 0) + n
         dst = os.path.join(src, rel)
         os.makedirs(os.path.dirname(dst), exist_ok=True)
         if not os.path.exists(dst) or open(dst).read() != text:
             open(dst, "w").write(text)
-        st = os.stat(p)
-        os.utime(dst, (st.st_atime, st.st_mtime))
+        mt = _mtime_for(p)
+        os.utime(dst, (mt, mt))
     files = {
         os.path.join(root, "Cargo.toml"): PROFILE.replace('members = ["memchr", "checks"]', 'members = ["memchr", "loomcheck"]').replace("[profile.release.package.stateright]", "[profile.release.package.loom]"),
         os.path.join(root, "memchr", "Cargo.toml"): '[package]\nname = "memchr-copy"\nversion = "0.0.0"\nedition = "2021"\n\n[lib]\nname = "memchr"\npath = "src/lib.rs"\ndoctest = false\ntest = false\n\n[features]\ndefault = ["std"]\nstd = ["alloc"]\nalloc = []\nlogging = []\n\n[dependencies]\nloom = "0.7"\n\n[lints.rust]\nunexpected_cfgs = { level = "allow" }\n',
         os.path.join(root, "loomcheck", "Cargo.toml"): '[package]\nname = "loomcheck-copy"\nversion = "0.0.0"\nedition = "2021"\n\n[dependencies]\nmemchr = { package = "memchr-copy", path = "../memchr" }\nmcore = { path = "%s/mcore" }\nloom = "0.7"\nserde_json = "1"\n\n[[bin]]\nname = "loomcheck"\npath = "%s/loomcheck/src/main.rs"\n\n[lints.rust]\nunexpected_cfgs = { level = "allow" }\n' % (HARNESS, HARNESS),
         os.path.join(root, ".cargo", "config.toml"): "[net]\noffline = true\n\n[build]\nrustflags = ['--cfg', 'memchr_verif', '--cfg', 'memchr_verif=\"loom\"', '--cfg', 'memchr_verif_loomcopy']\n",
     }
-    st = os.stat(os.path.join(HARNESS, "emul", "verif_emul.rs"))
     for p, content in files.items():
         os.makedirs(os.path.dirname(p), exist_ok=True)
         if not os.path.exists(p) or open(p).read() != content:
             open(p, "w").write(content)
-        os.utime(p, (st.st_atime, st.st_mtime))
+        mt = _mtime_for(None)
+        os.utime(p, (mt, mt))
     lockfile = os.path.join(root, "Cargo.lock")
     if not os.path.exists(lockfile):
         shutil.copy(os.path.join(HARNESS, "Cargo.lock"), lockfile)
